@@ -51,6 +51,8 @@ class Case:
         self.expected = set()  # relpaths that are read
         self.plain = True     # names are plain => clang -M is consulted as oracle
         self.env = {}
+        self.symlinks = {}    # relpath -> link target (relative to the link's directory): file-system conditions
+        self.no_callbacks = False  # run through the CLI without any parse callback registered (depfile is then the only consumer)
         self.flags = []       # bindgen flags (before `--`) that select what is GENERATED; they must not change what is REPORTED
 
 
@@ -209,6 +211,38 @@ def cases(tier):
                 c = dag_case(f"options shape={sname} form={form} row={rname}", n, edges, {e: form for e in edges}, "ifndef")
                 c.flags = fl
                 out.append(c)
+    # file-system conditions: symbolic links to directories and to files; `dir/..` through a link is NOT the link's parent
+    c = Case("symlink dir dotdot")
+    c.files = {"h0.h": '#include "proj/../common.h"\n#include "proj/inner.h"\nextern int v0;\n', "real/common.h": "#pragma once\ntypedef int real_common_t;\n",
+               "real/sub/inner.h": "#pragma once\ntypedef int inner_t;\n", "common.h": "typedef int decoy_t;\n"}
+    c.symlinks = {"proj": "real/sub"}
+    c.inputs = ["h0.h"]
+    c.expected = {"h0.h", "real/common.h", "real/sub/inner.h"}
+    out.append(c)
+    c = Case("symlink file")
+    c.files = {"h0.h": '#include "api.h"\n#include "inc/link2.h"\nextern int v0;\n', "detail/api_v2.h": "#pragma once\ntypedef int api_t;\n#include \"sibling.h\"\n",
+               "detail/sibling.h": "typedef int sib_t;\n", "sibling.h": "typedef int decoy_sib_t;\n", "other/target2.h": "typedef int t2_t;\n"}
+    c.symlinks = {"api.h": "detail/api_v2.h", "inc/link2.h": "../other/target2.h"}
+    c.inputs = ["h0.h"]
+    # clang resolves `#include "sibling.h"` relative to the directory of the name it opened (the link's directory)
+    c.expected = {"h0.h", "detail/api_v2.h", "sibling.h", "other/target2.h"}
+    out.append(c)
+    c = Case("symlink input header")
+    c.files = {"real_input/h0.h": '#include "dep.h"\nextern int v0;\n', "real_input/dep.h": "typedef int dep_t;\n", "dep.h": "typedef int decoy_dep_t;\n"}
+    c.symlinks = {"input.h": "real_input/h0.h"}
+    c.inputs = ["input.h"]
+    c.expected = {"real_input/h0.h", "dep.h"}
+    out.append(c)
+    # the same option rows with NO parse callback registered (the command-line default): the depfile is the only consumer of the
+    # inclusion records
+    for sname, n, edges in shapes:
+        for rname, fl in [("defaults", []), ("generate-functions", ["--generate", "functions"]), ("generate-types", ["--generate", "types"]),
+                          ("generate-functions-types", ["--generate", "functions,types"]), ("ignore-functions", ["--ignore-functions"]),
+                          ("no-recursive", ["--allowlist-type", "t0", "--no-recursive-allowlist"]), ("blocklist-all", ["--blocklist-item", ".*"])]:
+            c = dag_case(f"no-callbacks shape={sname} row={rname}", n, edges, {e: "quote" for e in edges}, "ifndef")
+            c.flags = fl
+            c.no_callbacks = True
+            out.append(c)
     c = Case("header_contents")
     c.files["hc_dep.h"] = "#pragma once\ntypedef int hc_dep_t;\n#include \"hc_dep2.h\"\n"
     c.files["hc_dep2.h"] = "typedef int hc_dep2_t;\n"
@@ -260,6 +294,10 @@ def materialize(c, root):
         os.makedirs(os.path.dirname(p), exist_ok=True)
         with open(p, "w") as f:
             f.write(content)
+    for rel, target in c.symlinks.items():
+        p = os.path.join(d, rel)
+        os.makedirs(os.path.dirname(p), exist_ok=True)
+        os.symlink(target, p)
     return d
 
 
@@ -290,6 +328,8 @@ def run(ck, only=None):
             job.pop("args")
             job["ops"] = [["depfile", os.path.join(d, "out.rs"), os.path.join(d, "dep.d")]]
             job["clang_args"] = cargs + ["-I", d]
+        if c.no_callbacks:
+            job.pop("callbacks", None)
         jobs.append(job)
         info[c.cid] = (c, d, cargs)
     res = common.run_jobs(jobs, wd, timeout=30)
@@ -333,11 +373,12 @@ def run(ck, only=None):
         if o.get("clangM") is not None and o["clangM"] != exp:
             raise common.Machinery(f"C17 generator and clang -M disagree on {cid}: gen={sorted(exp)} clang={sorted(o['clangM'])}")
         # (b) callback notifications
-        hdrs = [l.split(" ", 1)[1] for l in r["cb_log"] if l.startswith("header_file ")]
-        incs = [l.split(" ", 1)[1] for l in r["cb_log"] if l.startswith("include_file ")]
+        cb_log = r.get("cb_log") or []
+        hdrs = [l.split(" ", 1)[1] for l in cb_log if l.startswith("header_file ")]
+        incs = [l.split(" ", 1)[1] for l in cb_log if l.startswith("include_file ")]
         cbset = {rel(p) for p in hdrs + incs}
         virt = {rel(c.contents[0].replace("@D@", d))} if c.contents else set()
-        missing = exp - cbset
+        missing = exp - cbset if not c.no_callbacks else set()
         extra = cbset - exp - virt
         if missing:
             ck.violation(cid + " callbacks-missing", dict(det, why=f"files read but never reported through header_file/include_file: {sorted(missing)}"))
